@@ -7,9 +7,11 @@ d = os.path.dirname(os.path.dirname(os.path.abspath(__file__)))
 props = [json.loads(l)["id"] for l in open(os.path.join(d, "properties.jsonl")) if l.strip()]
 base = json.load(open(os.path.join(d, "MANIFEST.json")))
 entries = {}
+accepted = set(open(os.path.join(d, "checks", "accepted.txt")).read().split())   # integrated + verified by the orchestrator
 for f in sorted(glob.glob(os.path.join(d, "checks", "*.manifest.json"))):
     e = json.load(open(f))
-    entries[e["property_id"]] = e
+    if e["property_id"] in accepted:
+        entries[e["property_id"]] = e
 na_reasons = {}
 p = os.path.join(d, "checks", "not_applicable.json")
 if os.path.exists(p):
